@@ -442,6 +442,51 @@ def shared_step_case(rng):
     return 2, bad
 
 
+def shared_subobject_case(rng):
+    """two estimators constructed with the SAME sub-estimator object (centres, kernel approximation, scaler, Tsvd,
+    scikit-learn regressor): each must work on its own clone - fitting the second must neither change the fitted
+    state of the first nor fit the user's object"""
+    import sklearn.linear_model
+    bad = []
+    n = 0
+    D1 = data(rng, nu=1); D2 = 2.0 + 3.0 * data(rng, nu=1, length=11)
+    makers = [
+        ('RbfLiftingFn(centers=shared)', pykoop.UniformRandomCenters(n_centers=3, random_state=1), lambda o: pykoop.RbfLiftingFn(centers=o), 'lf'),
+        ('KernelApproxLiftingFn(kernel_approx=shared)', pykoop.RandomFourierKernelApprox(n_components=4, random_state=2),
+         lambda o: pykoop.KernelApproxLiftingFn(kernel_approx=o), 'lf'),
+        ('SkLearnLiftingFn(transformer=shared)', sklearn.preprocessing.StandardScaler(), lambda o: pykoop.SkLearnLiftingFn(o), 'lf'),
+        ('Dmdc(tsvd_unshifted=shared)', pykoop.Tsvd('cutoff', 0.2), lambda o: pykoop.Dmdc(tsvd_unshifted=o), 'reg'),
+        ('Dmdc(tsvd_shifted=shared)', pykoop.Tsvd('cutoff', 0.2), lambda o: pykoop.Dmdc(tsvd_shifted=o), 'reg'),
+        ('EdmdMeta(regressor=shared)', sklearn.linear_model.Ridge(alpha=0.1, fit_intercept=False), lambda o: pykoop.EdmdMeta(regressor=o), 'reg'),
+        ('LmiEdmd(tsvd=shared)', pykoop.Tsvd('cutoff', 0.2), lambda o: L.LmiEdmd(alpha=0.1, inv_method='svd', tsvd=o, solver_params=lmi.SOLVER), 'reg'),
+        ('ClusterCenters(estimator=shared)', sklearn.cluster.KMeans(n_clusters=2, n_init=1, random_state=0),
+         lambda o: pykoop.RbfLiftingFn(centers=pykoop.ClusterCenters(estimator=o)), 'lf'),
+    ]
+    for name, obj, mk, kind in makers:
+        n += 1
+        h0 = joblib.hash(obj)
+        try:
+            a = mk(obj); a.fit(D1, n_inputs=1, episode_feature=True)
+            s1 = fitted_state(a)
+            out1 = a.transform(D1) if kind == 'lf' else a.predict(D1)
+            b = mk(obj); b.fit(D2, n_inputs=1, episode_feature=True)
+            out2 = a.transform(D1) if kind == 'lf' else a.predict(D1)
+        except Exception as e:  # noqa
+            import traceback
+            if '/cvxopt/' in traceback.format_exc():
+                continue
+            bad.append(dict(what=f'shared sub-estimator history raised {type(e).__name__}: {e}', configuration=name))
+            continue
+        d = diff(fitted_state(a), s1, 0)
+        if d or not np.array_equal(out1, out2, equal_nan=True):
+            bad.append(dict(what='fitting a second estimator built with the same sub-estimator object changed the fitted state / '
+                                 'results of the first one', configuration=name, difference=d))
+        if joblib.hash(obj) != h0:
+            bad.append(dict(what='fit modified (fitted) the sub-estimator object passed to the constructor instead of a clone',
+                            configuration=name))
+    return n, bad
+
+
 def cache_case(rng):
     """memoised helpers: a fit must not be served results computed for other parameters"""
     bad = []
@@ -519,6 +564,7 @@ def run(res, tier):
     dist['refit_with_other_split'] = n_sc
     n1, b1 = params_roundtrip(); ev += n1; bad += b1
     n2, b2 = shared_step_case(rng); ev += n2; bad += b2
+    n2b, b2b = shared_subobject_case(rng); ev += n2b; bad += b2b
     try:
         n3, b3 = cache_case(rng); ev += n3; bad += b3
     except Exception:  # noqa
